@@ -83,7 +83,7 @@ def run(ctx):
     # ---- fermionic simulation gates: unitary = exp(-i exponent generator), decomposition = gate
     for _ in range(N(40, 300)):
         for cls, nw, nq in ((fs.QuadraticFermionicSimulationGate, 2, 2), (fs.CubicFermionicSimulationGate, 3, 3), (fs.QuarticFermionicSimulationGate, 3, 4)):
-            w = tuple(rng.choice([complex(rs.randn(), rs.randn()), float(rs.randn()), 1.0, 0.0, 1j]) for _ in range(nw))
+            w = tuple(rng.choice([complex(rs.randn(), rs.randn()), float(rs.randn()), 1.0, 0.0, 0.0, 1j]) for _ in range(nw))
             if cls is fs.QuadraticFermionicSimulationGate: w = (w[0], float(np.real(w[1])))
             elif cls is fs.CubicFermionicSimulationGate: w = tuple(w)
             ex = rng.choice([1.0, 0.5, -1.0, 0.0, rng.uniform(-2, 2)])
@@ -95,6 +95,12 @@ def run(ctx):
             G = fermion_matrix(nq, of.normal_ordered(gate.fermion_generator).terms)
             rp = {'gate': cls.__name__, 'weights': repr(w), 'exponent': ex}
             num('fermionic_simulation_gate', np.allclose(U, scipy.linalg.expm(-1j * ex * G), atol=1e-8), 'unitary differs from exp(-i exponent generator)', rp, key=(cls.__name__, repr(w), ex))
+            # the same gate acting inside a circuit / a simulator (the gates' own apply-unitary code path)
+            try:
+                qs_ = cirq.LineQubit.range(nq); Uc_ = cirq.Circuit(gate(*qs_)).unitary(qubit_order=qs_)
+                num('fermionic_simulation_in_circuit', np.allclose(Uc_, U, atol=1e-8), 'the gate applied inside a circuit differs from its own unitary', rp, key=('c', cls.__name__, repr(w), ex))
+            except Exception as e:
+                ctx.violation('C14 fermionic_simulation_gate %s inside a circuit raised %s: %s' % (cls.__name__, type(e).__name__, e), rp)
             dec = cirq.decompose_once(gate(*cirq.LineQubit.range(nq)), default=None)
             if dec is not None:
                 num('fermionic_simulation_decomposition', np.allclose(cirq.unitary(cirq.Circuit(dec)) if nq == len(cirq.Circuit(dec).all_qubits()) else cirq.Circuit(dec).unitary(qubit_order=cirq.LineQubit.range(nq)), U, atol=1e-8), 'decomposition differs from the gate', rp, key=('d', cls.__name__, repr(w), ex))
